@@ -255,7 +255,14 @@ func runStep(bin, dir string, w *wcfg, st *state, q *request, step int) *outcome
 	if bothSig {
 		wd = 20 * time.Second // a refusal is immediate; firing => INCONCLUSIVE as everywhere
 	}
-	pr := runWallet(bin, dir, args, wd)
+	var typed []byte
+	switch q.Prompt {
+	case 1, 4:
+		typed = []byte("y\n")
+	case 2, 3:
+		typed = []byte("n\n")
+	}
+	pr := runWalletIn(bin, dir, args, wd, typed)
 	if os.Getenv("VERIF_DEBUG") != "" && pr.wall > time.Second {
 		fmt.Fprintf(os.Stderr, "wallet run took %v: %v\n", pr.wall, args)
 	}
@@ -349,6 +356,32 @@ func runStep(bin, dir string, w *wcfg, st *state, q *request, step int) *outcome
 			o.inc("config_refused_ok/minsig+rfc6979")
 		}
 		return o
+	}
+
+	if q.declined() && !bothSig && strings.Contains(pr.stdout, "Do you confirm creating the signed transaction file") {
+		// the user was asked and said no: nothing is written, nothing is remembered
+		o.inc("prompt_declined_runs")
+		const cls = "prompt-declined/"
+		if len(nf) > 0 {
+			o.v(cls+"file-written", "the confirmation was declined but a file was written", map[string]interface{}{"files": nf})
+		}
+		nb, _ := os.ReadFile(filepath.Join(dir, "balance", "unspent.txt"))
+		if string(nb) != st.unspTxt {
+			o.v(cls+"balance-changed", "the confirmation was declined (no transaction exists) but balance/unspent.txt changed", map[string]interface{}{"after": string(nb)})
+		}
+		if x := newFiles(balBefore, listDir(filepath.Join(dir, "balance"))); len(x) > 0 {
+			o.v(cls+"balance-file-written", "the confirmation was declined but a file appeared in balance/", map[string]interface{}{"files": x})
+		}
+		if pr.exit == 0 {
+			o.v(cls+"exit-0", "the confirmation was declined but the wallet exits with 0", nil)
+		}
+		if len(o.vios) == 0 {
+			o.inc("prompt_declined_ok")
+		}
+		return o
+	}
+	if q.Prompt != 0 && strings.Contains(pr.stdout, "Do you confirm creating the signed transaction file") {
+		o.inc("prompt_accepted_runs")
 	}
 
 	if q.Raw {
